@@ -29,12 +29,13 @@ VARIABLES sig,         \* method -> shape
           init,        \* func at construction (struct literal); observation
           last, hist,  \* observation
           snaps,       \* retained MCalls() results (history variable, see MatryerMockContract!ReturnedRecordsStable)
+          xlog,        \* records of the third method X (called once up front, never in the histories)
           stale        \* method -> records of it were handed out by MCalls() and then reset away.  Part of the VIEW:
                        \* "call; reset" must not be identified with the initial state, or read -> reset -> call(s) ->
                        \* re-inspect would never be explored
 
-vars == <<sig, opt, func, log, init, last, hist, snaps, stale>>
-view == <<sig, opt, func, log, stale>>
+vars == <<sig, opt, func, log, init, last, hist, snaps, stale, xlog>>
+view == <<sig, opt, func, log, stale, xlog>>
 
 BShape == [ar |-> 1, var |-> FALSE, nres |-> 1]
 
@@ -47,14 +48,16 @@ Init == /\ sig \in {[m \in Methods |-> IF m = "A" THEN s ELSE BShape] : s \in Sh
         /\ hist = << >>
         /\ snaps = << >>
         /\ stale = [m \in Methods |-> FALSE]
+        /\ xlog = XLog0
 
-NoReply   == [kind |-> "ret", res |-> << >>, names |-> FALSE, inner |-> << >>]
-Ret(r)    == [kind |-> "ret", res |-> r, names |-> FALSE, inner |-> << >>]
+NoReply   == [kind |-> "ret", res |-> << >>, names |-> FALSE, inner |-> << >>, seen |-> << >>]
+Ret(r)    == [kind |-> "ret", res |-> r, names |-> FALSE, inner |-> << >>, seen |-> << >>]
 FnIsNil(fn) == [m \in Methods |-> fn[m] = Nil]
 
 Ev(op, m, f, args, reply, fwd, lg, fn) ==
   [op |-> op, m |-> m, f |-> f, args |-> args, reply |-> reply, fwd |-> fwd, logs |-> lg, fnil |-> FnIsNil(fn),
    by |-> ByLogs(sig), snaps |-> snaps,     \* the abstract log has no aliasing: retained results never change
+   xlog |-> IF op = "resetall" THEN << >> ELSE xlog,
    after |-> args,                          \* placeholder; the expectation per concrete type set is afterby
    afterby |-> [ts \in TypeSetNames |-> IF op = "call" THEN AfterFor(ts, m, sig[m], func[m], args) ELSE << >>]]
 
@@ -70,19 +73,19 @@ Appended(lg, m, args) == [lg EXCEPT ![m] = Append(@, Record(m, args))]    \* :10
 \* what the user's function does when the mock forwards to it (:121 / :128), given the log at that moment
 Forward(m, f, args, lg) ==
   LET nres == sig[m].nres IN
-  CASE f = "FP" -> [reply |-> [kind |-> "panic", res |-> << >>, names |-> FALSE, inner |-> << >>],
+  CASE f = "FP" -> [reply |-> [kind |-> "panic", res |-> << >>, names |-> FALSE, inner |-> << >>, seen |-> << >>],
                     fwd |-> <<Fwd(m, f, args)>>, logs |-> lg]
     [] f = "FR" -> \* the function calls the same method once more (nested call runs :94-121 again)
                    LET ia  == InnerArgs(sig[m])
                        lg2 == Appended(lg, m, ia)
                    IN [reply |-> [kind |-> "ret", res |-> Results(f, args, nres), names |-> FALSE,
-                                  inner |-> Results(f, ia, nres)],
+                                  inner |-> Results(f, ia, nres), seen |-> <<lg["B"], lg["B"]>>],
                        fwd |-> <<Fwd(m, f, args), Fwd(m, f, ia)>>, logs |-> lg2]
     [] OTHER    -> [reply |-> Ret(Results(f, args, nres)), fwd |-> <<Fwd(m, f, args)>>, logs |-> lg]
 
 CallImpl(m, args) ==
   IF ~opt.stub /\ func[m] = Nil                                         \* :93-97 nil check, panic BEFORE recording
-  THEN [reply |-> [kind |-> "panic", res |-> << >>, names |-> TRUE, inner |-> << >>], fwd |-> << >>, logs |-> log]
+  THEN [reply |-> [kind |-> "panic", res |-> << >>, names |-> TRUE, inner |-> << >>, seen |-> << >>], fwd |-> << >>, logs |-> log]
   ELSE LET lg1 == Appended(log, m, args) IN
        IF opt.stub /\ func[m] = Nil                                      \* :111-120 / :123-127 zero values
        THEN [reply |-> Ret(Zeros(sig[m].nres)), fwd |-> << >>, logs |-> lg1]
@@ -93,27 +96,28 @@ Call(m, v, n) ==
       r    == CallImpl(m, args) IN
   /\ log' = r.logs
   /\ Do(Ev("call", m, "", args, r.reply, r.fwd, r.logs, func))
-  /\ UNCHANGED <<sig, opt, func, init, stale>>
+  /\ UNCHANGED <<sig, opt, func, init, stale, xlog>>
 
 ResetM(m) ==                                                             \* :151-157
   /\ opt.resets
   /\ log' = [log EXCEPT ![m] = << >>]
   /\ Do(Ev("resetm", m, "", << >>, NoReply, << >>, log', func))
   /\ stale' = [stale EXCEPT ![m] = @ \/ log[m] # << >>]
-  /\ UNCHANGED <<sig, opt, func, init>>
+  /\ UNCHANGED <<sig, opt, func, init, xlog>>
 
 ResetAll ==                                                              \* :160-168
   /\ opt.resets
   /\ log' = [m \in Methods |-> << >>]
   /\ Do(Ev("resetall", "", "", << >>, NoReply, << >>, log', func))
   /\ stale' = [m \in Methods |-> stale[m] \/ log[m] # << >>]
+  /\ xlog' = << >>                                                       \* :163-167 ranges over ALL methods
   /\ UNCHANGED <<sig, opt, func, init>>
 
 SetFunc(m, f) ==                                                         \* user code: mock.MFunc = f
   /\ func[m] # f
   /\ func' = [func EXCEPT ![m] = f]
   /\ Do(Ev("setfunc", m, f, << >>, NoReply, << >>, log, func'))
-  /\ UNCHANGED <<sig, opt, log, init, stale>>
+  /\ UNCHANGED <<sig, opt, log, init, stale, xlog>>
 
 \* call alphabet: two tags on A (the second only once there is a record to be ordered against or a handed-out record
 \* that a new call could overwrite), variadic lengths 0, 1, 2; on B one tag, a second one after its records were reset away
@@ -147,7 +151,7 @@ P_NilFuncContract           == [][IsCall => NilFuncContract(sig, opt, func, log,
 P_ResetEmptiesOnlyItsTarget == [][Stepped /\ last'.op \in {"resetm", "resetall"} =>
                                     ResetEmptiesOnlyItsTarget(sig, opt, func, log, last')]_vars
 P_StepOK                    == [][Stepped => (\A ts \in TypeSetNames :
-                                                StepOK(sig, opt, ts, func, log, ByLogs(sig), snaps,
+                                                StepOK(sig, opt, ts, func, log, ByLogs(sig), snaps, xlog,
                                                        [last' EXCEPT !.after = last'.afterby[ts]]))
                                              /\ func' = FuncsAfter(func, last')
                                              /\ log' = last'.logs]_vars
@@ -157,7 +161,7 @@ TypeOK == /\ \A m \in Methods : func[m] \in FuncIds \cup {Nil}
 
 ---------------------------------------------------------------------------
 (* Export: every generated transition, with a representative history leading to it *)
-Case == [sig |-> sig, opt |-> opt, init |-> init, inner |-> InnerArgs(sig["A"]), byargs |-> ByArgs(sig), ops |-> hist]
+Case == [sig |-> sig, opt |-> opt, init |-> init, inner |-> InnerArgs(sig["A"]), byargs |-> ByArgs(sig), xargs |-> XArgs, ops |-> hist]
 Emit == IF Len(hist) > 0 /\ TLCGet("config").mode = "bfs" THEN PrintT(<<"CASE", ToJson(Case)>>) ELSE TRUE
 EmitAtDepth == IF Len(hist) = MaxHist THEN PrintT(<<"CASE", ToJson(Case)>>) ELSE TRUE
 =============================================================================
